@@ -181,6 +181,7 @@ def sqrt_hook(exe, st, node, args):
         exe.nsym += 1
         t = z3.Real('sqrt#%d' % exe.nsym)
         exe.axioms.append(z3.And(t >= 0, t * t == x))
+        exe.__dict__.setdefault('sqrt_defs', {})[t.get_id()] = (t, x)
         return t
     exe.emit('%s/sqrt_domain@%s' % (exe.fn_stack[-1], exe._loc(node)), x >= 0, st, kind='arith')
     t = _memo(exe, 'sqrt', x, mk)
